@@ -219,7 +219,10 @@ func c11Check(c C11Case, rec *Recorder) *Disc {
 					return discf("pre-set Vary %q is not a prefix of Vary at handler entry %q: %s", v, got, where)
 				}
 			case hACAO, hACAC, hACEH:
-				// may be overwritten by the middleware
+				// may be set (overwritten) by the middleware, never deleted
+				if _, still := resp.Entry[k]; !still {
+					return discf("pre-set header %s was deleted before the handler ran (the middleware may set it, not remove it): %s", k, where)
+				}
 			default:
 				if !eqStrs(got, v) {
 					return discf("pre-set header %s changed from %q to %q before the handler ran: %s", k, v, got, where)
